@@ -60,3 +60,44 @@ Proof.
   rewrite A1, A2, A3, A4, A5, A6, A7, H. reflexivity.
 Qed.
 Print Assumptions C13_stray.
+
+(* ---- the oracle evaluated on the implementation holds of the model, for every input ---- *)
+Require Import Wire.Case Spec.Oracles Spec.OracleFactsCopy.
+From Coq Require Import String.
+Local Open Scope string_scope.
+Local Open Scope list_scope.
+Local Open Scope Z_scope.
+
+(* For every configuration (handler programs with CopyIn and CopyReader.Read calls anywhere, any number of
+   statements, any limit, authentication, middleware) and every client byte stream whose first packet is not
+   an SSLRequest: the model's whole-connection log has no crash, every CopyInResponse answers a configured
+   CopyIn call with that statement's column count and format, and the left-to-right scan [copy_mon]
+   (data handed to the handler = the client's CopyData bodies in order, CopyDone => io.EOF once,
+   CopyFail => the abort reported once and the ErrorResponse written once, nothing delivered after the end
+   of a COPY, stray COPY messages outside a COPY ignored silently) accepts it. *)
+Theorem C13_model_satisfies_oracle : forall sc,
+  (forall v after rest, start (cfg_of_case sc) (sc_raw sc) = Some (v, after, rest) -> v <> version_ssl) ->
+  oracle_C13 sc (run_case sc) = true.
+Proof. exact oracle_C13_model. Qed.
+Print Assumptions C13_model_satisfies_oracle.
+
+Definition ex_copy_stmt : stmt :=
+  {| s_id := 7; s_cols := [ {| c_name := bs "a"; c_table := 0; c_attrno := 0; c_oid := 25; c_width := -1 |} ];
+     s_poids := []; s_prog := [HCopyIn 0; HCopyRead; HCopyRead; HCopyRead; HComplete (bs "COPY 2")];
+     s_stop := true; s_ret := RetNil |}.
+Definition ex_copy_case : scase :=
+  {| sc_limit := 0; sc_auth := None; sc_params := []; sc_version := []; sc_tls := false; sc_mws := [];
+     sc_term := None;
+     sc_parse := [(bs "copy", POk [ex_copy_stmt])];
+     sc_raw := ((let body := be32 196608 ++ cstr (bs "user") ++ cstr (bs "a") ++ [x00] in be32 (4 + lenZ body) ++ body) ++
+               client_msg x51 (cstr (bs "copy")) ++ client_msg x64 (bs "r1") ++ client_msg x64 (bs "r2") ++ client_msg x63 [] ++
+               client_msg x64 (bs "stray") ++
+               client_msg x51 (cstr (bs "copy")) ++ client_msg x64 (bs "r3") ++ client_msg x66 (cstr (bs "stop")) ++
+               client_msg x51 (cstr (bs "copy")))%list;
+     sc_tlsin := None |}.
+Example C13_ex_model :
+  List.length (client_frames ex_copy_case) = 9%nat /\
+  List.length (filter (fun r => match r with OData _ => true | _ => false end) (opres_evs (run_case ex_copy_case))) = 3%nat /\
+  List.length (filter (fun m => match m with BCopyIn _ _ => true | _ => false end) (outs (run_case ex_copy_case))) = 3%nat /\
+  oracle_C13 ex_copy_case (run_case ex_copy_case) = true /\ oracle_C13_turns ex_copy_case (run_case ex_copy_case) = true.
+Proof. vm_compute. repeat split. Qed.
